@@ -79,6 +79,14 @@ def stepG (g? : Option (WGrid Int)) (toks : List String) : Option (WGrid Int) ×
         (some g', unwords (fmtOff g'))
       else (st, "bad-op")
     | _, _ => (st, "bad-op")
+  | "wg.trq" :: args =>          -- translate without reading the offset afterwards (the model has no getter side effects)
+    match st, parseAll? parseInt? args with
+    | some g, some xs =>
+      let dim := g.dims.length
+      if xs.length == dim + 1 && xs.all fitsInt32 then
+        (some (g.translate (xs.take dim) (xs.getD dim 0)), "ok")
+      else (st, "bad-op")
+    | _, _ => (st, "bad-op")
   | "wg.get" :: args =>
     match st, parseAll? parseNat? args with
     | some g, some idx =>
